@@ -138,6 +138,12 @@ def gen(tier, rng, scale):
                     lines[i], lines[i + 1] = lines[i + 1], lines[i]
                 else:
                     lines[i] = "".join(chr(rng.below(256)) for _ in range(rng.below(30)))
+        if rng.chance(1, 5) and lines and lines[0].startswith("MODULE ") and len(lines[0].split(" ")) >= 5:
+            # variants of the MODULE record itself: the index creator stores these bytes and parse_symindex_file reads them back
+            f = lines[0].split(" ")
+            lines[0] = rng.choice([" ".join(f[:4]) + " ", " ".join(f[:4]) + "  ", " ".join(f[:4]) + " \t", " ".join(f[:4]) + " \r", lines[0] + " ", lines[0] + "\t",
+                                   " ".join(f[:4]), f[0] + "  " + " ".join(f[1:]), " ".join(f[:3] + [f[3].lower()] + f[4:]), " ".join(f[:3] + [f[3] + "ABCDEF1"] + f[4:]),
+                                   " ".join(f[:3] + [f[3][:31]] + f[4:]), " ".join(f[:4]) + " name with spaces ", "MODULE  x86_64 " + " ".join(f[3:])])
         text = "\n".join(lines)
         if rng.chance(1, 10):
             text = text[len(text.split("\n")[0]) + 1:]               # no MODULE line
